@@ -17,12 +17,13 @@ pub struct TestReader {
     calls: Rc<Cell<u64>>,
     fail_at: Option<u64>,
     fired: Rc<Cell<bool>>,
+    exposed: usize,   // length of the window the last fill_buf returned and not yet consumed (BufRead contract: consume <= that)
 }
 impl TestReader {
     pub fn new(data: Rc<Vec<u8>>, mode: u64, fail_at: Option<u64>) -> (Self, Rc<Cell<u64>>, Rc<Cell<bool>>) {
         let calls = Rc::new(Cell::new(0));
         let fired = Rc::new(Cell::new(false));
-        (TestReader { data, pos: 0, mode, rnd: 0x1234_5678_9abc_def1, calls: calls.clone(), fail_at, fired: fired.clone() }, calls, fired)
+        (TestReader { data, pos: 0, mode, rnd: 0x1234_5678_9abc_def1, calls: calls.clone(), fail_at, fired: fired.clone(), exposed: 0 }, calls, fired)
     }
     fn tick(&mut self) -> io::Result<()> {
         let c = self.calls.get();
@@ -53,6 +54,7 @@ impl Read for TestReader {
         let p = (self.pos.min(self.data.len() as u64)) as usize;
         buf[..n].copy_from_slice(&self.data[p..p + n]);
         self.pos += n as u64;
+        self.exposed = 0;
         Ok(n)
     }
 }
@@ -61,10 +63,16 @@ impl BufRead for TestReader {
         self.tick()?;
         let n = self.window();
         let p = (self.pos as usize).min(self.data.len());
+        self.exposed = n;
         Ok(&self.data[p..p + n])
     }
     fn consume(&mut self, amt: usize) {
-        self.pos += amt as u64;
+        // as std::io::BufReader: at most what fill_buf exposed can be consumed (a Cursor would advance by any amount;
+        // code that relies on that works on a Cursor only)
+        // mode 0 is the baseline "what a Cursor does": it advances by any amount
+        let a = if self.mode == 0 { amt } else { amt.min(self.exposed) };
+        self.pos += a as u64;
+        self.exposed = self.exposed.saturating_sub(a);
     }
 }
 impl Seek for TestReader {
@@ -79,6 +87,7 @@ impl Seek for TestReader {
             return Err(io::Error::new(io::ErrorKind::InvalidInput, "invalid seek"));
         }
         self.pos = np as u64;
+        self.exposed = 0;
         Ok(self.pos)
     }
 }
@@ -158,13 +167,31 @@ pub fn consistent_with_baseline(res: &[String], base: &[String]) -> Option<Strin
     None
 }
 
-struct TestWriter { out: Vec<u8>, max_per_write: usize, calls: u64, fail_at: Option<u64> }
+struct TestWriter { out: Vec<u8>, max_per_write: usize, calls: u64, fail_at: Option<u64>, vectored: bool }
 impl Write for TestWriter {
     fn write(&mut self, b: &[u8]) -> io::Result<usize> {
         let c = self.calls; self.calls += 1;
         if self.fail_at == Some(c) { return Err(io::Error::new(io::ErrorKind::Other, "injected write fault")); }
         let n = b.len().min(self.max_per_write.max(1));
         self.out.extend_from_slice(&b[..n]);
+        Ok(n)
+    }
+    /// a sink with a native vectored write (pipe / socket / BufWriter style): accepts up to max_per_write bytes across the slices
+    fn write_vectored(&mut self, bufs: &[io::IoSlice<'_>]) -> io::Result<usize> {
+        if !self.vectored {
+            let b = bufs.iter().find(|b| !b.is_empty()).map_or(&[][..], |b| &**b);
+            return self.write(b);
+        }
+        let c = self.calls; self.calls += 1;
+        if self.fail_at == Some(c) { return Err(io::Error::new(io::ErrorKind::Other, "injected write fault")); }
+        let mut left = self.max_per_write.max(1);
+        let mut n = 0;
+        for b in bufs {
+            let k = b.len().min(left);
+            self.out.extend_from_slice(&b[..k]);
+            n += k; left -= k;
+            if left == 0 { break; }
+        }
         Ok(n)
     }
     fn flush(&mut self) -> io::Result<()> { Ok(()) }
@@ -263,20 +290,31 @@ pub fn run(tier: &str, seed: u64, outdir: &str, _extra: &[String]) {
         };
         let pred = i % 2 == 0;
         let meta = (i % 8) as u8;
-        let (r, base) = encode_with(TestWriter { out: vec![], max_per_write: usize::MAX, calls: 0, fail_at: None }, &img, w, hh, ct, pred, meta);
+        let (r, base) = encode_with(TestWriter { out: vec![], max_per_write: usize::MAX, calls: 0, fail_at: None, vectored: false }, &img, w, hh, ct, pred, meta);
         if r.is_err() { violations.push(format!("encode {w}x{hh} failed on a healthy sink: {:?}", r)); continue; }
         for m in [1usize, 2, 3, 7, 64] {
             enc_split_runs += 1;
             let img2 = img.clone();
-            match catch(std::panic::AssertUnwindSafe(|| encode_with(TestWriter { out: vec![], max_per_write: m, calls: 0, fail_at: None }, &img2, w, hh, ct, pred, meta))) {
+            match catch(std::panic::AssertUnwindSafe(|| encode_with(TestWriter { out: vec![], max_per_write: m, calls: 0, fail_at: None, vectored: false }, &img2, w, hh, ct, pred, meta))) {
                 Ok((r, wr)) => if r.is_err() || wr.out != base.out { if violations.len() < 20 { violations.push(format!("encode {w}x{hh} meta {meta}: sink accepting {m} bytes per write gives different output")); } },
                 Err(e) => if violations.len() < 20 { violations.push(format!("encode {w}x{hh}: PANIC with splitting sink: {e}")); },
+            }
+        }
+        // sinks with a native write_vectored accepting exactly m bytes per call: every m up to the output length (so that every
+        // boundary between header / payload / padding of every chunk is hit exactly) on small outputs, a sample otherwise
+        let ms: Vec<usize> = if base.out.len() <= 400 || thorough { (1..=base.out.len().min(1500)).collect() } else { (1..=64).chain((0..40).map(|_| 1 + rng.below(base.out.len() as u64) as usize)).collect() };
+        for m in ms {
+            enc_split_runs += 1;
+            let img2 = img.clone();
+            match catch(std::panic::AssertUnwindSafe(|| encode_with(TestWriter { out: vec![], max_per_write: m, calls: 0, fail_at: None, vectored: true }, &img2, w, hh, ct, pred, meta))) {
+                Ok((r, wr)) => if r.is_err() || wr.out != base.out { if violations.len() < 20 { violations.push(format!("encode {w}x{hh} meta {meta}: vectored sink accepting {m} bytes per call gives different output ({} vs {} bytes)", wr.out.len(), base.out.len())); } },
+                Err(e) => if violations.len() < 20 { violations.push(format!("encode {w}x{hh}: PANIC with vectored splitting sink: {e}")); },
             }
         }
         for k in 0..base.calls {
             enc_fault_runs += 1;
             let img2 = img.clone();
-            match catch(std::panic::AssertUnwindSafe(|| encode_with(TestWriter { out: vec![], max_per_write: usize::MAX, calls: 0, fail_at: Some(k) }, &img2, w, hh, ct, pred, meta))) {
+            match catch(std::panic::AssertUnwindSafe(|| encode_with(TestWriter { out: vec![], max_per_write: usize::MAX, calls: 0, fail_at: Some(k), vectored: false }, &img2, w, hh, ct, pred, meta))) {
                 Ok((r, wr)) => {
                     if r.is_ok() { if violations.len() < 20 { violations.push(format!("encode {w}x{hh} meta {meta}: sink failed at write {k} but encode returned Ok")); } }
                     else if !base.out.starts_with(&wr.out) { if violations.len() < 20 { violations.push(format!("encode {w}x{hh}: bytes before the failing write {k} are not a prefix of the full output")); } }
